@@ -10,4 +10,4 @@ start=$(date +%s)
 ( cd /verif && VERIF_EVIDENCE_SUFFIX=.mutant ./check "$prop" "$tier" --evidence /tmp/evidence-mutant.json "$@" ) 2>&1 | grep -v conda | grep -E "VIOLATION|invariant|HARNESS|KNOWN|clisim:|coresim:|argv|seed=" | head -20
 rc=${PIPESTATUS[0]}
 echo "check exit=$rc  ($(( $(date +%s) - start )) s)"
-git -C /repo reset -q --hard HEAD ; git -C /repo status --short
+git -C /repo reset -q --hard HEAD ; git -C /repo clean -fdq ; git -C /repo status --short
